@@ -20,7 +20,7 @@ def _read_all(info):
     if info is None:
         return
     info.url
-    info.query_map if info.query is not None else None
+    info.query_map
     info.hostname_with_port
     info.to_dict()
     info.is_port_default()
@@ -59,7 +59,7 @@ def _free_text(t, s):
 _CHARS = [':', '/', '?', '#', '@', '[', ']', '%', '.', 'a', '0', ' ', chr(92), '\ud800', '\xe9', '\u3002', '-', '+', '\x7f', 'X']
 
 
-def _pool_text(t, n, c1, c2, c3):
+def _pool_text(t, n, c1, c2, c3, enc=0):
     s = ''
     if n >= 1:
         s += pick(_CHARS, c1)
@@ -67,11 +67,11 @@ def _pool_text(t, n, c1, c2, c3):
         s += pick(_CHARS, c2)
     if n >= 3:
         s += pick(_CHARS, c3)
-    return _total(_TEMPLATES[t].replace('{}', s))
+    return _total(_TEMPLATES[t].replace('{}', s), ['utf-8', 'latin-1', 'ascii'][enc])
 
 
 _SCHEMES = ['http://', 'HTTPS://', 'ftp://', '', '//', 'mailto:', 'localhost:', 'a.b:', ':', 'http:']
-_AUTH = ['example.com', 'EXAMPLE.com:80', 'u:p@h', '[::1]', '[::1]:8080', '[', ']', '[]', '[::1', 'h:', 'h:99999', 'h:-1',
+_AUTH = ['example.com', 'EXAMPLE.com:80', 'u:p@h', 'us\u0101r@h', 'u:\u20ac@h', '[::1]', '[::1]:8080', '[', ']', '[]', '[::1', 'h:', 'h:99999', 'h:-1',
          'h:' + '9' * 5000, 'h:x', '@', ':@:', 'bücher.example', '\ud800', 'a\udfffb', 'x' * 64 + '.example', '..', '.',
          '0x7f.1', '1.2.3.4.5', '999999999999', '0xG', 'h。example', '%41', 'h h', '١.example', '']
 _PATHS = ['', '/', '/a/../../b', '/%zz', '/\ud800', '/a b', '//', '/.', '?', '#']
@@ -107,6 +107,7 @@ HARNESSES = [
       pre=['0 <= si < %d and 0 <= ai < %d and 0 <= pi < %d and 0 <= qi < %d and 0 <= enc <= 2' % (
           len(_SCHEMES), len(_AUTH), len(_PATHS), len(_QUERIES))],
       parts={'quick': [{'tag': 'auth_s%d' % i, 'fix': {'si': str(i), 'pi': '2', 'qi': '1', 'enc': '0'}} for i in range(len(_SCHEMES))]
+             + [{'tag': 'auth_s0_e%d' % e, 'fix': {'si': '0', 'pi': '2', 'qi': '1', 'enc': str(e)}} for e in (1, 2)]
              + [{'tag': 'pathquery_e%d' % e, 'fix': {'si': '0', 'ai': '0', 'enc': str(e)}} for e in range(3)],
              'thorough': [{'tag': 's%d_e%d' % (i, e), 'fix': {'si': str(i), 'enc': str(e)}} for i in range(len(_SCHEMES)) for e in range(3)]},
       timeout={'quick': 120, 'thorough': 1200},
@@ -123,12 +124,14 @@ HARNESSES = [
       funcs=['wpull/url.py:URLInfo.parse', 'wpull/url.py:normalize_hostname', 'wpull/url.py:normalize_ipv4_address',
              'wpull/url.py:flatten_path', 'wpull/url.py:percent_encode'],
       doc='same totality assertion with a free symbolic string (every character symbolic) at 10 positions of a URL'),
-    H('pool_text', '_pool_text', 't: int, n: int, c1: int, c2: int, c3: int',
-      pre={'quick': ['0 <= t < %d and 0 <= n <= 2 and 0 <= c1 < %d and 0 <= c2 < %d and c3 == 0' % (len(_TEMPLATES), len(_CHARS), len(_CHARS))],
-           'thorough': ['0 <= t < %d and 0 <= n <= 3 and 0 <= c1 < %d and 0 <= c2 < %d and 0 <= c3 < %d' % (len(_TEMPLATES), len(_CHARS), len(_CHARS), len(_CHARS))]},
-      parts=[{'tag': 't%d' % i, 'fix': {'t': str(i)}} for i in range(len(_TEMPLATES))],
+    H('pool_text', '_pool_text', 't: int, n: int, c1: int, c2: int, c3: int, enc: int',
+      pre={'quick': ['0 <= t < %d and 0 <= n <= 2 and 0 <= c1 < %d and 0 <= c2 < %d and c3 == 0 and 0 <= enc <= 2' % (len(_TEMPLATES), len(_CHARS), len(_CHARS))],
+           'thorough': ['0 <= t < %d and 0 <= n <= 3 and 0 <= c1 < %d and 0 <= c2 < %d and 0 <= c3 < %d and 0 <= enc <= 2' % (len(_TEMPLATES), len(_CHARS), len(_CHARS), len(_CHARS))]},
+      parts={'quick': [{'tag': 't%d' % i, 'fix': {'t': str(i), 'enc': '0'}} for i in range(len(_TEMPLATES))]
+             + [{'tag': 't%d_e%d' % (i, e), 'fix': {'t': str(i), 'enc': str(e)}} for i in (2, 3, 4) for e in (1, 2)],
+             'thorough': [{'tag': 't%d_e%d' % (i, e), 'fix': {'t': str(i), 'enc': str(e)}} for i in range(len(_TEMPLATES)) for e in (0, 1, 2)]},
       timeout={'quick': 150, 'thorough': 1800},
-      samples=[(0, 2, 0, 1, 0), (6, 3, 0, 0, 10)], need=['parsed', 'rejected'],
+      samples=[(0, 2, 0, 1, 0, 0), (6, 3, 0, 0, 10, 0)], need=['parsed', 'rejected'],
       funcs=['wpull/url.py:URLInfo.parse'],
       doc='totality for every string of <=2 (thorough <=3) characters over a 20-character pool of delimiter/odd characters at 10 '
           'positions of a URL (characters chosen by symbolic index, enumerated by the solver)'),
